@@ -245,6 +245,121 @@ theorem C05_fresh_delivered_in_replay (N : Nat) (hN2 : N < 2 ^ 64) (c m : W) (in
 example : (handle (SerfModel.EventBuf.run (α := Nat) (Buf.start 2 1#64 0#64)
     [.gossip 1#64 7, .gossip 3#64 8]).1 2#64 5).2 = .delivered := by decide
 
+section slotTimes
+attribute [local irreducible] SerfModel.EventBuf.witness
+
+omit [DecidableEq α] in
+theorem prelude_clock (b : Buf α) (e : W) (raise : Bool) :
+    b.clock.toNat ≤ (raiseMin (witnessRemote b e) raise e).clock.toNat
+    ∧ (raiseMin (witnessRemote b e) raise e).slots = b.slots := by
+  have h1 : b.clock.toNat ≤ (witnessRemote b e).clock.toNat ∧ (witnessRemote b e).slots = b.slots := by
+    unfold witnessRemote
+    by_cases he : 0#64 < e
+    · simp only [he, ↓reduceIte]
+      have hne : e - 1#64 ≠ maxW := by
+        intro hEq
+        have : (e - 1#64).toNat = 2 ^ 64 - 1 := by rw [hEq]; simp [maxW]
+        bv_omega
+      exact ⟨(witness_nat b.clock _ hne).1, trivial⟩
+    · simp only [he, ↓reduceIte]; exact ⟨Nat.le_refl _, trivial⟩
+  unfold raiseMin
+  by_cases hr : (raise = true ∧ (witnessRemote b e).minTime < e)
+  · simp only [hr, and_self, ↓reduceIte]; exact h1
+  · simp only [hr, ↓reduceIte]; exact h1
+
+/-- Every slot's time is congruent to its index and below the clock. -/
+def SlotTimes (b : Buf α) : Prop :=
+  ∀ (i : Nat) (t : W) (xs : List α), b.slots[i]? = some (some (t, xs)) →
+    t.toNat % b.slots.length = i ∧ t.toNat < b.clock.toNat
+
+theorem handle_slotTimes (b : Buf α) (lt : W) (x : α) (hN : 0 < b.slots.length) (hN2 : b.slots.length < 2 ^ 64)
+    (hlt : lt ≠ maxW) (h : SlotTimes b) : SlotTimes (handle b lt x).1 := by
+  obtain ⟨hw1, hw2⟩ := witness_nat b.clock lt hlt
+  have hkeep : ∀ (c : W), b.clock.toNat ≤ c.toNat → SlotTimes { b with clock := c } := by
+    intro c hc i t xs hs
+    have := h i t xs hs
+    exact ⟨this.1, by simp only; omega⟩
+  unfold handle
+  simp only
+  by_cases h1 : lt < b.minTime
+  · simp only [h1, ↓reduceIte]; exact hkeep _ hw1
+  by_cases h2 : tooOld b.slots.length (witness b.clock lt) lt = true
+  · simp only [h1, h2, ↓reduceIte]; exact hkeep _ hw1
+  by_cases h3 : x ∈ seenAt b.slots (slotIdx b.slots.length lt) lt
+  · simp only [h1, h2, h3, ↓reduceIte, Bool.false_eq_true]; exact hkeep _ hw1
+  simp only [h1, h2, h3, ↓reduceIte, Bool.false_eq_true]
+  rw [slotIdx_eq hN2]
+  intro i t xs hs
+  simp only [List.getElem?_set, List.length_set] at hs ⊢
+  by_cases hi : lt.toNat % b.slots.length = i
+  · simp only [hi, ↓reduceIte] at hs
+    split at hs
+    · simp only [Option.some.injEq, Prod.mk.injEq] at hs
+      obtain ⟨rfl, _⟩ := hs
+      exact ⟨hi, hw2⟩
+    · cases hs
+  · simp only [hi, ↓reduceIte] at hs
+    have := h i t xs hs
+    exact ⟨this.1, by omega⟩
+
+theorem handleAll_slotTimes (l : List (W × α)) : ∀ (b : Buf α), 0 < b.slots.length → b.slots.length < 2 ^ 64 →
+    (∀ p ∈ l, p.1 ≠ maxW) → SlotTimes b → SlotTimes (handleAll b l).1 := by
+  induction l with
+  | nil => intro b _ _ _ h; exact h
+  | cons p rest ih =>
+    intro b hN hN2 hl h
+    obtain ⟨t, x⟩ := p
+    have h1 := handle_slotTimes b t x hN hN2 (hl (t, x) (List.mem_cons_self ..)) h
+    have hlen : (handle b t x).1.slots.length = b.slots.length := handleAll_length [(t, x)] b
+    simp only [handleAll]
+    exact ih _ (by omega) (by omega) (fun p hp => hl p (List.mem_cons_of_mem _ hp)) h1
+
+/-- **Slot discipline.** After every history without the time 2^64−1, every
+occupied slot `i` holds a time `t` with `t ≡ i (mod N)` and `t < clock`. -/
+theorem C05_slot_times (N : Nat) (hN : 0 < N) (hN2 : N < 2 ^ 64) (c m : W) (ins : List (In α))
+    (hnw : NoWrap ins) : SlotTimes (SerfModel.EventBuf.run (Buf.start N c m) ins).1 := by
+  have key : ∀ (ins : List (In α)) (b : Buf α), 0 < b.slots.length → b.slots.length < 2 ^ 64 →
+      NoWrap ins → SlotTimes b → SlotTimes (SerfModel.EventBuf.run b ins).1 := by
+    intro ins
+    induction ins with
+    | nil => intro b _ _ _ h; exact h
+    | cons i rest ih =>
+      intro b hN hN2 hnw h
+      have hi := hnw i (List.mem_cons_self ..)
+      have hrest : NoWrap rest := fun j hj => hnw j (List.mem_cons_of_mem _ hj)
+      simp only [SerfModel.EventBuf.run]
+      cases i with
+      | gossip lt x =>
+        have h1 := handleAll_slotTimes [(lt, x)] b hN hN2
+          (by intro p hp; simp at hp; subst hp; exact hi lt (by simp [In.times])) h
+        have hl := handleAll_length [(lt, x)] b
+        exact ih _ (by simp only [stepIn]; omega) (by simp only [stepIn]; omega) hrest h1
+      | pushPull e raise image =>
+        have hp : SlotTimes (raiseMin (witnessRemote b e) raise e) := by
+          have hc := prelude_clock b e raise
+          intro i t xs hs
+          rw [hc.2] at hs ⊢
+          have := h i t xs hs
+          exact ⟨this.1, by omega⟩
+        have hpl := prelude_length b e raise
+        have h1 := handleAll_slotTimes (flatten image) _ (by omega) (by omega)
+          (by intro p hp'; exact hi p.1 (by simp only [In.times, List.mem_map]; exact ⟨p, hp', rfl⟩)) hp
+        have hl := handleAll_length (flatten image) (raiseMin (witnessRemote b e) raise e)
+        exact ih _ (by simp only [stepIn]; omega) (by simp only [stepIn]; omega) hrest h1
+  apply key ins _ (by simpa [Buf.start] using hN) (by simpa [Buf.start] using hN2) hnw
+  intro i t xs hs
+  simp only [Buf.start, List.getElem?_replicate] at hs
+  split at hs <;> simp at hs
+
+end slotTimes
+
+-- non-vacuity of C05_slot_times: its hypotheses are satisfiable
+example : SlotTimes (SerfModel.EventBuf.run (α := Nat) (Buf.start 2 1#64 0#64) [.gossip 1#64 7, .gossip 3#64 8]).1 :=
+  C05_slot_times 2 (by decide) (by decide) 1#64 0#64 _ (by
+    intro i hi t ht
+    simp only [List.mem_cons, List.not_mem_nil, or_false] at hi
+    rcases hi with rfl | rfl <;> simp [In.times] at ht <;> subst ht <;> decide)
+
 -- non-vacuity of C05_fresh_delivered_in_replay: a join push/pull with the cut-off raised to 9
 -- replays (9, 7); a new event at time 10 arriving next in the same replay is delivered.
 example : (handle (handleAll (raiseMin (witnessRemote (SerfModel.EventBuf.run (α := Nat) (Buf.start 2 1#64 0#64)
